@@ -245,8 +245,23 @@ def r20_4(ctx):
             a = [unparse(x) for x in s.value.args]
             # two-step form: ``r = <rewrite>; r = gate(parent, r, dependents)`` - the gated value must be the returned
             # variable; one-step form: ``r = gate(parent, <rewrite expression>, dependents)`` - any expression
-            if len(a) < 3 or (a[1].isidentifier() and a[1] not in gated):
-                ctx.finding(rr, site(f, s), f"_preserve_grid_contract is applied to {a[1] if len(a) > 1 else '?'}, not to the value being returned", func=f, node=s)
+            # what is gated must be the rewrite's own result: the expression (or every non-gate definition of the
+            # variable) calls this gate's pushdown entry point
+            entry = {v: k for k, v in GATE_OF.items()}[g]
+
+            def from_entry(e):
+                return any(isinstance(x, ast.Call) and isinstance(x.func, ast.Attribute) and x.func.attr == entry for x in ast.walk(e))
+
+            ok = len(a) >= 3
+            if ok:
+                e = s.value.args[1]
+                if isinstance(e, ast.Name):
+                    ds = [d.value for d in cfg.stmts() if isinstance(d, ast.Assign) and d not in gate_stmts and any(unparse(t) == e.id for t in d.targets)]
+                    ok = bool(ds) and all(from_entry(d) for d in ds)
+                else:
+                    ok = from_entry(e)
+            if not ok:
+                ctx.finding(rr, site(f, s), f"_preserve_grid_contract is applied to {a[1] if len(a) > 1 else '?'}, which is not the result of {entry}()", func=f, node=s)
         for r in cfg.returns:
             v = unparse(r.value) if r.value is not None else "None"
             if v == "None":
